@@ -124,6 +124,9 @@ func runC17(c *Ctx) {
 				rec.Class(cell)
 				rec.Event("NewSigner")
 				want := fam != "" && fam == k.family && (fam != "rsa" || k.rsaBits >= 2048)
+				if n := rec.Events("NewSigner"); n%97 == 3 {
+					rec.Sample(fmt.Sprintf("matrix-%d", n), map[string]any{"cell": cell, "table_says_succeeds": want, "library_error": errStr(err)})
+				}
 				c17judge(rec, cell, in, want, fam, k, err, s != nil, func() cose.Algorithm { return s.Algorithm() }, a)
 			}
 			// ---- NewVerifier ----
@@ -252,6 +255,9 @@ func runC17(c *Ctx) {
 		rec.Eval(1)
 		rec.Event("digest-equivalence-cases")
 		rec.Class(cell)
+		if i%900 == 1 {
+			rec.Sample(fmt.Sprintf("equivalence-%d", i), map[string]any{"cell": cell, "sig_from_Sign": hexs(sig1), "sig_from_SignDigest": hexs(sig2)})
+		}
 		if e1 != nil || e2 != nil {
 			rec.Violate("digest-equivalence", "sign-failed/"+ec.p.name, fmt.Sprintf("Sign err=%v SignDigest err=%v", e1, e2), in)
 			return
@@ -283,8 +289,6 @@ func runC17(c *Ctx) {
 	rec.Require("NewSigner", 300)
 	rec.Require("NewVerifier", 300)
 	rec.Require("digest-equivalence-cases", 300)
-	rec.Sample("matrix-cell", map[string]any{"cell": "NewVerifier/alg=-37/key=rsa-2047", "expect": "error"})
-	rec.Sample("equivalence", map[string]any{"cell": "digest-equivalence/alg=ES384/key=ecdsa-P-256/len=56", "expect": "Sign and SignDigest both verify via Verify and VerifyDigest, not via SHA-512"})
 }
 
 func c17judge(rec *mon.Recorder, cell string, in map[string]any, want bool, fam string, k c17key, err error, nonNil bool, algOf func() cose.Algorithm, asked cose.Algorithm) {
